@@ -75,6 +75,8 @@ class Recorder(object):
         self.labels = []
         self.active = False
         self.partial_copy = []     # (label, dst name, full bytes) for non-atomic copies
+        self.deleted = []          # files removed by Python-level calls of the code under test
+        self.overwritten = []      # existing files replaced by rename/replace/move
 
     def snap(self, label):
         if not self.active:
@@ -101,6 +103,10 @@ class Recorder(object):
                 if not involved:
                     return orig(*a, **kw)
                 lab = "%s.%s%r" % (modname, fname, tuple(os.path.basename(x) if isinstance(x, str) else x for x in a))
+                if fname in ("remove", "unlink") and a and isinstance(a[0], str):
+                    rec.deleted.append(os.path.basename(a[0]))
+                if fname in ("rename", "replace", "move") and len(a) > 1 and isinstance(a[1], str) and os.path.exists(a[1]):
+                    rec.overwritten.append(os.path.basename(a[1]))
                 rec.snap("before " + lab)
                 r = orig(*a, **kw)
                 if fname in ("copy", "copyfile", "copy2") and len(a) >= 2 and isinstance(a[1], str) and os.path.isfile(a[1]):
